@@ -104,6 +104,7 @@ package kv
 //@ ensures err == nil ==> len(parts) <= len(req.SequenceKeyDelta)
 //@ ensures !errIs(err, ErrMissingSequenceDeltas)
 //@ ensures !errIs(err, ErrMissingPartitionKey) && !errIs(err, ErrSequenceDeltaIsZero)
+//@ ensures maxSequence == 18446744073709551615
 //@ modifies nothing
 
 //@ func generateUniqueKeyFromSequences(batch, req) (newKey, err)
@@ -200,3 +201,19 @@ package kv
 //@ ensures d.versionIdTracker.v == old(d.versionIdTracker.v) || d.versionIdTracker.v == old(d.versionIdTracker.v) + 1
 //@ ensures err == nil ==> res != nil
 //@ modifies *
+
+// ---------------------------------------------------------------- sequence waiters (C16)
+
+// Every registered waiter id was handed out by the id generator.
+//@ define swtInv(swt *sequenceWaiterTracker) bool = swt.waiters != nil && swt.idGen.v >= 0 && swt.idGen.v < 4611686018427387904 && (forall k string :: inmap(swt.waiters, k) ==> swt.waiters[k] != nil) && forall k string, i sequenceWaiterID :: inmap(swt.waiters, k) && inmap(swt.waiters[k], i) ==> i <= swt.idGen.v
+
+// Registering a waiter never evicts or replaces a registered one: the new waiter gets
+// an id no other waiter has.
+//
+//@ func sequenceWaiterTracker.AddSequenceWaiter(swt, key) (sw)
+//@ property C16
+//@ requires swtInv(swt) && swt.idGen.v < 4611686018427387903
+//@ ensures swtInv(swt) && sw != nil && sw.key == key && sw.tracker == swt && sw.id == swt.idGen.v && swt.idGen.v == old(swt.idGen.v) + 1
+//@ ensures inmap(swt.waiters, key) && inmap(swt.waiters[key], sw.id) && swt.waiters[key][sw.id] == sw
+//@ ensures forall k string, i sequenceWaiterID :: old(inmap(swt.waiters, k) && inmap(swt.waiters[k], i)) ==> inmap(swt.waiters, k) && inmap(swt.waiters[k], i) && swt.waiters[k][i] == old(swt.waiters[k][i])
+//@ modifies swt.idGen.v, mapof(swt.waiters), fields(map[server/kv.sequenceWaiterID]*server/kv.sequenceWaiter)
